@@ -38,6 +38,13 @@ meta["check_results"] = results
 meta["false_alarms"] = [p for p, v in results.items() if v["exit"] != 0]
 out = "/verif/seeded/benign/%s-%s" % (ID, k)
 os.makedirs(out, exist_ok=True)
+try:
+    # keep the result of the cross-property run (tools/benign_cross.py)
+    old = json.load(open(os.path.join(out, "meta.json")))
+    if "cross" in old:
+        meta["cross"] = old["cross"]
+except Exception:
+    pass
 if os.path.abspath(src) != os.path.abspath(out):
     shutil.copy(patch, out)
     if os.path.exists(os.path.join(src, "NOTES.md")):
